@@ -11,6 +11,7 @@ import (
 	"net/http"
 	"os"
 	"path/filepath"
+	"strings"
 	"sync"
 	"sync/atomic"
 	"time"
@@ -46,6 +47,18 @@ type Peer struct {
 	// OnConnect, if set, is called with the sequence number of every accepted connection.
 	OnConnect func(n int)
 	closed    int32
+	paused    int32
+}
+
+// Pause makes the peer stop reading from its connections (the sender's writes eventually block);
+// Resume undoes it.
+func (p *Peer) Pause()  { atomic.StoreInt32(&p.paused, 1) }
+func (p *Peer) Resume() { atomic.StoreInt32(&p.paused, 0) }
+
+func (p *Peer) waitWhilePaused() {
+	for atomic.LoadInt32(&p.paused) == 1 && atomic.LoadInt32(&p.closed) == 0 {
+		time.Sleep(time.Millisecond)
+	}
 }
 
 var seq int64
@@ -185,6 +198,7 @@ func (p *Peer) serveStream(ln net.Listener) {
 		go func() {
 			defer c.Close()
 			for {
+				p.waitWhilePaused()
 				h := make([]byte, 12)
 				if _, err := io.ReadFull(c, h); err != nil {
 					return
@@ -279,6 +293,7 @@ func (p *Peer) wsHandler(w http.ResponseWriter, r *http.Request) {
 	n := p.setCur(l)
 	defer c.Close()
 	for {
+		p.waitWhilePaused()
 		mt, msg, err := c.ReadMessage()
 		if err != nil {
 			return
@@ -299,8 +314,33 @@ func (p *Peer) Text(b []byte) error {
 	return nil
 }
 
-// Start a scripted peer of the given kind.
-func Start(kind string) (*Peer, error) {
+// Start a scripted peer of the given kind. Binding is retried for a while when the machine has run out
+// of free ports (many shards opening thousands of short-lived connections).
+func Start(kind string) (p *Peer, err error) {
+	for try := 0; try < 40; try++ {
+		if p, err = start(kind); err == nil || !ResourceError(err) {
+			return
+		}
+		time.Sleep(250 * time.Millisecond)
+	}
+	return
+}
+
+// ResourceError reports whether err says that the machine has no free port or descriptor left.
+func ResourceError(err error) bool {
+	if err == nil {
+		return false
+	}
+	m := err.Error()
+	for _, s := range []string{"address already in use", "cannot assign requested address", "too many open files", "no buffer space available"} {
+		if strings.Contains(m, s) {
+			return true
+		}
+	}
+	return false
+}
+
+func start(kind string) (*Peer, error) {
 	p := &Peer{Kind: kind, In: make(chan Frame, 1<<16)}
 	n := atomic.AddInt64(&seq, 1)
 	switch kind {
